@@ -36,6 +36,36 @@ Theorem C14_httpdate_roundtrip : forall t, year_ok t ->
   exists s, format_ts HttpDate t = Some s /\ parse_ts HttpDate s = Some (truncate_ts HttpDate t).
 Proof. exact httpdate_roundtrip. Qed.
 Print Assumptions C14_httpdate_roundtrip.
+(* the epoch-seconds format (a decimal number of seconds with up to three fraction digits, negative before 1970): read back as the same
+   instant truncated toward zero to milliseconds, sign included, for every instant the parser admits (year -9999 .. 9999) *)
+From S3V Require Import proofs.EpochProofs.
+Theorem C14_epoch_seconds_roundtrip : forall t, (- (377705116800 * NS) <= t <= max_instant)%Z ->
+  exists s, format_ts EpochSeconds t = Some s /\ parse_epoch s = Some (trunc_ms t).
+Proof. exact epoch_roundtrip. Qed.
+Print Assumptions C14_epoch_seconds_roundtrip.
+Example C14_epoch_seconds_example :
+  format_ts EpochSeconds (-1500000000)%Z = Some (b "-1.5") /\ parse_epoch (b "-1.5") = Some (-1500000000)%Z
+  /\ format_ts EpochSeconds (-250000000)%Z = Some (b "-0.25") /\ parse_epoch (b "-0.25") = Some (-250000000)%Z
+  /\ format_ts EpochSeconds (-999999)%Z = Some (b "0") /\ trunc_ms (-999999) = 0%Z
+  /\ format_ts EpochSeconds 1577934245120999999%Z = Some (b "1577934245.12") /\ parse_epoch (b "1577934245.12") = Some 1577934245120000000%Z.
+Proof. vm_compute. repeat split. Qed.
+Print Assumptions C14_epoch_seconds_example.
+(* copy sources: what format_to_string writes (bucket "/" percent-encoded key [ "?versionId=" percent-encoded id ]) parse reads back as the
+   same bucket, key and version id - for every valid bucket name, every UTF-8 key within the length limit (any bytes: '?', '%', '/', '+',
+   spaces, non-ASCII) and every UTF-8 version id *)
+From S3V Require Import model.Service model.CopySource proofs.CopySourceProofs.
+Theorem C14_copy_source_roundtrip : forall bk k ver,
+  check_bucket_name bk = true -> wf_bytes k = true -> utf8_valid k = true -> check_key k = true ->
+  match ver with Some v => wf_bytes v = true /\ utf8_valid v = true | None => True end ->
+  parse_copy_source (format_copy_source bk k ver) = inr (bk, k, ver).
+Proof. exact copy_source_roundtrip. Qed.
+Print Assumptions C14_copy_source_roundtrip.
+Example C14_copy_source_example :
+  format_copy_source (b "my-bucket") (b "a b/c?d%41+e") (Some (b "v/1?x")) = b "my-bucket/a%20b/c%3Fd%2541%2Be?versionId=v%2F1%3Fx"
+  /\ show_copy (parse_copy_source (b "my-bucket/a%20b/c%3Fd%2541%2Be?versionId=v%2F1%3Fx"))
+     = b "ok:" ++ show_hex (b "my-bucket") ++ b "|" ++ show_hex (b "a b/c?d%41+e") ++ b "|" ++ show_hex (b "v/1?x").
+Proof. vm_compute. split; reflexivity. Qed.
+Print Assumptions C14_copy_source_example.
 Theorem C14_calendar_bijection : forall z,
   let '(y, m, d) := civil_from_days z in days_from_civil y m d = z /\ valid_date y m d = true.
 Proof. intros z. pose proof (days_civil_days z) as H1. pose proof (civil_valid z) as H2. destruct (civil_from_days z) as [[y m] d]. split; assumption. Qed.
